@@ -203,7 +203,26 @@ func VerifC09_PingPongPool() {
 	w.zzCheck(uint64(maxReq))
 	steps := verif.Param("steps", 3, 4)
 	for i := 0; i < steps; i++ {
-		switch verif.Choose("op", 5) {
+		switch verif.Choose("op", 6) {
+		case 5: // a one-way request (no receiver): done as soon as it is written
+			if len(pool.idleClients) == 0 {
+				verif.EngineOnly("NewStream would dial")
+			}
+			ctx := variable.NewVariableContext(context.Background())
+			_, sender, _ := pool.NewStream(ctx, nil)
+			if sender != nil {
+				st := sender.GetStream().(*zzPStream)
+				st.live = false // written; nothing else will ever happen on this stream
+				back := st.client.conn.closed
+				for _, a := range pool.idleClients {
+					if a.codecClient == st.client {
+						back = true
+					}
+				}
+				verif.Cover("one-way")
+				verif.Assert(back, "one-way request: its connection must return to the pool (or be closed) once the request is written")
+				return // the books are off from here on (known finding); nothing more to learn on this path
+			}
 		case 0: // a new two-way request
 			if len(pool.idleClients) == 0 {
 				verif.EngineOnly("NewStream would dial: a real connection natively, a modelled dial under the engine")
